@@ -1697,7 +1697,7 @@ def proof_stage(ck):
     return ok, failing
 
 
-EXPECT_THEOREMS = 51
+EXPECT_THEOREMS = 59
 
 
 def run(ck):
